@@ -111,7 +111,7 @@ def case(item):
 
 def items(tier, seed):
     out = []
-    Ks = (1, 2, 3, 4) if tier == "quick" else (1, 2, 3, 4, 5)
+    Ks = (1, 2, 3, 4) if tier == "quick" else (1, 2, 3, 4, 5, 6)
     kinds_all = ["generic", "flat", "peaked", "ties", "seeded", "extreme"]
     for K in Ks:
         for pi, par in enumerate(oracle.forests(K)):
@@ -121,7 +121,9 @@ def items(tier, seed):
                     if K == 4:
                         kinds = [kinds_all[(pi + G + dims) % 6], "ties"] if (tier == "thorough" or G in (3, 4)) else []
                     if K == 5:
-                        kinds = [kinds_all[(pi + G) % 6]] if (G == 3 and dims == 1) else []
+                        kinds = ([kinds_all[(pi + G) % 6], "ties"] if G in (2, 3, 4) else []) if tier == "thorough" else ([kinds_all[(pi + G) % 6]] if (G == 3 and dims == 1) else [])
+                    if K == 6:
+                        kinds = [kinds_all[(pi + G) % 6]] if (G in (2, 3) and dims == 1) else []
                     for kind in kinds:
                         out.append((par, G, dims, kind, seed))
     return out
